@@ -739,3 +739,59 @@ func (tr *Translator) constGlobalLiteral(g *ssa.Global) (string, bool) {
 }
 
 var pkgSyntax []*ast.File
+
+// getForToken models jsonpointer.GetForToken(doc, token) for a document that is a struct value without a JSONLookup
+// method of its own: swag's name provider maps the JSON names of the tagged, exported fields (embedded structs walked)
+// to fields; a known name yields the field's value boxed in an interface (a nil pointer field comes back as a typed
+// nil), an unknown one the error "object has no field ...".  Nothing is written.
+func (fc *fctx) getForToken(cc *ssa.CallCommon, args []*Val, pos token.Pos) []*Val {
+	tr := fc.tr
+	u := tr.u
+	inner, t := staticArgType(cc.Args[0])
+	if inner == nil {
+		return nil
+	}
+	st, _ := structOf(t)
+	if st == nil {
+		return nil
+	}
+	if m := tr.methodOf(t, "JSONLookup"); m != nil {
+		return nil
+	}
+	tr.jsonDecls()
+	sv := fc.val(inner)
+	tok := args[1]
+	res := cc.Signature().Results()
+	r := fc.freshVal("gft_r", res.At(0).Type())
+	kind := fc.freshVal("gft_k", res.At(1).Type())
+	errv := fc.freshVal("gft_err", res.At(2).Type())
+	ift := types.NewInterfaceType(nil, nil)
+	ienc := tr.encFn(ift)
+	var known []string
+	for _, f := range jsonFields(st) {
+		if !f.tagged {
+			unsup("jsonpointer.GetForToken on a struct with an untagged field (%s)", f.name)
+		}
+		fv := sv
+		for _, i := range f.path {
+			if i == derefStep {
+				unsup("jsonpointer.GetForToken on a struct with an embedded pointer")
+			}
+			fv = u.fieldOf(fv, i)
+		}
+		isK := eq(tok.E(), smtString(f.name))
+		known = append(known, isK)
+		boxed := mkIface(ift, fmt.Sprint(u.typeID(f.typ)), u.box(fv))
+		if fv.Sort == "Iface" {
+			boxed = fv // a field of interface type: Interface() returns the interface value itself
+		}
+		// encoding the returned interface value is encoding the field (encoding/json encodes the dynamic value)
+		tr.assume(implies(isK, and(eq(r.E(), boxed.E()), eq("("+ienc+" "+r.E()+")", "("+tr.encFn(f.typ)+" "+fv.E()+")"))))
+	}
+	any := or(known...)
+	tr.u.decl("specfn:errText", "(declare-fun errText (Iface) String)")
+	tr.assume(implies(any, eq(ifPart(errv, 0), "0")))
+	tr.assume(implies(not(any), and(eq(ifPart(r, 0), "0"), not(eq(ifPart(errv, 0), "0")), "(str.prefixof \"object has no field\" (errText "+errv.E()+"))")))
+	tr.trusted["jsonpointer.GetForToken on a struct value: swag name provider = JSON names of tagged exported fields (embedded structs walked); known name -> field value boxed (typed nil for nil pointers), unknown -> error \"object has no field ...\"; encoding the boxed value is encoding the field"] = true
+	return []*Val{r, kind, errv}
+}
